@@ -1774,20 +1774,49 @@ func (st *inlineState) indexToRange(x *ast.ForStmt) ast.Stmt {
 	if !pure || len(x.Body.List) == 0 {
 		return nil
 	}
-	first, ok := x.Body.List[0].(*ast.AssignStmt)
-	if !ok || first.Tok != token.DEFINE || len(first.Lhs) != 1 || len(first.Rhs) != 1 {
-		return nil
+	var valueIdent ast.Expr
+	rest := x.Body.List
+	if first, ok := x.Body.List[0].(*ast.AssignStmt); ok && first.Tok == token.DEFINE && len(first.Lhs) == 1 && len(first.Rhs) == 1 {
+		if ix, ok := ast.Unparen(first.Rhs[0]).(*ast.IndexExpr); ok && VarOf(st.info, ix.Index) == iv && types.ExprString(ix.X) == types.ExprString(coll) {
+			valueIdent, rest = first.Lhs[0], x.Body.List[1:]
+		}
 	}
-	ix, ok := ast.Unparen(first.Rhs[0]).(*ast.IndexExpr)
-	if !ok || VarOf(st.info, ix.Index) != iv || types.ExprString(ix.X) != types.ExprString(coll) {
-		return nil
+	if valueIdent == nil {
+		// no element variable: introduce one for the occurrences of X[i]
+		et := st.info.TypeOf(coll)
+		var elem types.Type
+		if et != nil {
+			switch u := et.Underlying().(type) {
+			case *types.Slice:
+				elem = u.Elem()
+			case *types.Array:
+				elem = u.Elem()
+			}
+		}
+		if elem == nil {
+			return nil
+		}
+		ev := st.newVar("elem", elem, x.Pos())
+		n := 0
+		collStr := types.ExprString(coll)
+		st.replaceExprs(reflect.ValueOf(x.Body), func(e ast.Expr) bool {
+			ix, ok := e.(*ast.IndexExpr)
+			return ok && VarOf(st.info, ix.Index) == iv && types.ExprString(ix.X) == collStr
+		}, func(old ast.Expr) ast.Expr {
+			n++
+			return st.useIdent(ev, old.Pos())
+		})
+		if n == 0 {
+			return nil
+		}
+		valueIdent = st.defIdent(ev, x.Pos())
 	}
 	collRoot, collPath := FieldPath(st.info, coll)
 	if collRoot == nil {
 		return nil
 	}
 	bad := false
-	for _, s := range x.Body.List[1:] {
+	for _, s := range rest {
 		ast.Inspect(s, func(n ast.Node) bool {
 			switch y := n.(type) {
 			case *ast.AssignStmt:
@@ -1814,8 +1843,8 @@ func (st *inlineState) indexToRange(x *ast.ForStmt) ast.Stmt {
 	if bad {
 		return nil
 	}
-	return &ast.RangeStmt{For: x.For, Key: init.Lhs[0], Value: first.Lhs[0], TokPos: init.TokPos, Tok: token.DEFINE, X: coll,
-		Body: &ast.BlockStmt{Lbrace: x.Body.Lbrace, List: x.Body.List[1:], Rbrace: x.Body.Rbrace}}
+	return &ast.RangeStmt{For: x.For, Key: init.Lhs[0], Value: valueIdent, TokPos: init.TokPos, Tok: token.DEFINE, X: coll,
+		Body: &ast.BlockStmt{Lbrace: x.Body.Lbrace, List: rest, Rbrace: x.Body.Rbrace}}
 }
 
 // unrollLiteralRange: `for _, v := range []T{e1, …, en} { body }` (the slice given
@@ -2126,4 +2155,46 @@ func (st *inlineState) duplicateTail(list []ast.Stmt) []ast.Stmt {
 	ni.Else = els
 	st.changed = true
 	return append(append([]ast.Stmt{}, list[:n-2]...), ni)
+}
+
+
+// replaceExprs replaces, below v, every expression satisfying pred (found in an
+// ast.Expr-typed field or slice element) by mk(old).
+func (st *inlineState) replaceExprs(v reflect.Value, pred func(ast.Expr) bool, mk func(ast.Expr) ast.Expr) {
+	switch v.Kind() {
+	case reflect.Ptr:
+		if v.IsNil() || !v.Type().Implements(nodeType) {
+			return
+		}
+		switch v.Interface().(type) {
+		case *ast.Object, *ast.Scope:
+			return
+		}
+		ev := v.Elem()
+		for i := 0; i < ev.NumField(); i++ {
+			f := ev.Field(i)
+			if f.Kind() == reflect.Interface && !f.IsNil() && f.CanSet() {
+				if e, ok := f.Interface().(ast.Expr); ok && pred(e) {
+					f.Set(reflect.ValueOf(mk(e)))
+					continue
+				}
+			}
+			st.replaceExprs(f, pred, mk)
+		}
+	case reflect.Interface:
+		if !v.IsNil() {
+			st.replaceExprs(v.Elem(), pred, mk)
+		}
+	case reflect.Slice:
+		for i := 0; i < v.Len(); i++ {
+			el := v.Index(i)
+			if el.Kind() == reflect.Interface && !el.IsNil() {
+				if e, ok := el.Interface().(ast.Expr); ok && pred(e) {
+					el.Set(reflect.ValueOf(mk(e)))
+					continue
+				}
+			}
+			st.replaceExprs(el, pred, mk)
+		}
+	}
 }
